@@ -688,6 +688,87 @@ func scenario(p params, bounds []int) *vexp.Scenario {
 	}
 }
 
+// replacedScenario: a top-level actor w fails; while the decision about that failure is still pending (the system's decision
+// maker is slow) w is killed by somebody else, terminates, and an outsider spawns a new actor under the same name. The directive,
+// when it finally comes, belongs to the actor that failed - which is gone - and must not touch the new one.
+func replacedScenario(dec vivid.SupervisionDecision, cause string, bounds []int) *vexp.Scenario {
+	return &vexp.Scenario{
+		Name:   fmt.Sprintf("top-level-replaced-while-decision-pending/%s/dec=%s", cause, dec),
+		Family: "dec=" + dec.String(),
+		Cfg:    vsys.Coarse(80000),
+		Bounds: bounds,
+		Setup:  func(x *vexp.X) { vsys.CoarseSetup() },
+		Body: func(x *vexp.X) {
+			rule := func(pr, name, format string, a ...any) {
+				if pr == *prop {
+					x.Fail(strings.ToLower(pr)+"."+name, format, a...)
+				}
+			}
+			replaced := false
+			consulted := 0
+			w := vsys.NewWorld(x, vivid.WithActorSystemSupervisionStrategy(vivid.OneForOneStrategy(vivid.SupervisionStrategyDecisionMakerFN(
+				func(sc vivid.SupervisionContext) (vivid.SupervisionDecision, string) {
+					consulted++
+					vrt.Block(vrt.KYield, 0, "slow system decision maker", func() bool { return replaced })
+					return dec, "scripted"
+				}))))
+			w.Quiet = true
+			w.Start()
+			mk := func() *vsys.Script {
+				return &vsys.Script{Name: "w", OnMsg: func(a *vsys.Act, ctx vivid.ActorContext, m vsys.Msg) {
+					if m.ID == "boom" {
+						fail(ctx, cause)
+					}
+				}}
+			}
+			w.SpawnRoot(mk())
+			vrt.QuiesceNoTimers()
+			ref := w.Ref("/w")
+			w.Sys.Tell(ref, vsys.Msg{ID: "boom"})
+			vrt.QuiesceNoTimers() // w has failed, the root is inside the (blocked) decision maker
+			w.Sys.Kill(ref, false, "somebody else")
+			vrt.QuiesceNoTimers()
+			if _, err := w.SpawnRoot(mk()); err != nil {
+				x.Fail("harness", "re-spawn under the same name: %v", err)
+				return
+			}
+			vrt.QuiesceNoTimers()
+			before := len(w.EntriesOf("/w"))
+			replaced = true
+			vrt.Quiesce()
+			if consulted != 1 {
+				rule("C08", "decision-consulted-once", "the system strategy was consulted %d times for one failure", consulted)
+			}
+			for _, en := range w.EntriesOf("/w")[before:] {
+				rule("C08", "directive-hits-the-failed-actor-only", "the decision %s about the actor that failed (and has terminated since) reached the NEW actor living under its name: it saw %s(%s)", dec, en.Type, en.Detail)
+			}
+			for _, pb := range w.PubsOf("ActorRestartedEvent") {
+				if pb.Ref == "/w" {
+					rule("C08", "directive-hits-the-failed-actor-only", "the new actor under the name of the failed one was restarted")
+				}
+			}
+			w.Sys.Tell(w.Ref("/w"), vsys.Msg{ID: "probe"})
+			vrt.Quiesce()
+			ok := false
+			for _, en := range w.EntriesOf("/w") {
+				if en.Type == "Msg" && en.Detail == "probe" {
+					ok = true
+				}
+			}
+			if !ok {
+				rule("C09", "survivor-processes-probe", "the new actor /w (spawned after the failed one had terminated) did not process a message sent after quiescence")
+				rule("C08", "directive-hits-the-failed-actor-only", "the new actor /w no longer processes messages after the late decision %s", dec)
+			}
+			if err := w.Sys.Stop(); err != nil {
+				rule("C09", "stop-after-failure", "System.Stop after the scenario returned %v", err)
+			}
+			vrt.Quiesce()
+			vsys.CheckLifecycle(w)
+			x.Outcome(w.Summary())
+		},
+	}
+}
+
 var decisions = []vivid.SupervisionDecision{
 	vivid.SupervisionDecisionRestart, vivid.SupervisionDecisionGracefulRestart, vivid.SupervisionDecisionStop,
 	vivid.SupervisionDecisionGracefulStop, vivid.SupervisionDecisionResume,
@@ -761,6 +842,11 @@ func build(tier string) []*vexp.Scenario {
 		p := base
 		p.dec, p.second = d, true
 		add(p)
+	}
+	for _, cause := range []string{"panic", "failed"} {
+		for _, d := range decisions {
+			out = append(out, replacedScenario(d, cause, bounds))
+		}
 	}
 	// a child with queued mail fails while its parent is in the middle of its own (graceful) restart
 	for _, cause := range []string{"panic", "failed"} {
